@@ -91,6 +91,7 @@ def run_shard(shard):
     from flowjax.bijections.planar import _UnconditionalPlanar
     from flowjax.wrappers import unwrap
     from fjmon import bijbundle as BB
+    from fjmon import specs as S
     from fjmon.bijcheck import Recorder
     from fjmon.common import chash, jsonable, perturb
 
@@ -182,7 +183,7 @@ def run_shard(shard):
             return {"shape": shape, "cond_shape": cshape, "W": W}, build, ref, shape, cshape, {}, z(shape)
         if kind in ("Planar", "PlanarCond"):
             d = int(rng.integers(1, 6))
-            ns = [None, 0.1, 0.5, 0.9][int(rng.integers(0, 4))]
+            ns = [None, 0.1, 0.5, 0.9, 1.0, 1.5, 4.0][int(rng.integers(0, 7))]  # any positive slope is accepted, also above 1
             cd = int(rng.integers(1, 4)) if kind == "PlanarCond" else None
             seed = int(rng.integers(0, 2**31 - 1))
             pscale = float(rng.choice([0.01, 1.0, 2.0]))
@@ -201,13 +202,13 @@ def run_shard(shard):
                 w, u, bias = params[:, :d], params[:, d:2 * d], params[:, -1]
                 uhat = np.stack([np.asarray(_UnconditionalPlanar(J(w[i]), J(u[i]), J(bias[i]), ns).get_act_scale(), dtype=np.float64) for i in range(N)]) \
                     if cd is not None else np.broadcast_to(np.asarray(_UnconditionalPlanar(J(w[0]), J(u[0]), J(bias[0]), ns).get_act_scale(), dtype=np.float64), (N, d))
-                # structural clauses on u_hat (appendix A.1): only the component along w is changed, and w.u_hat > -1
+                # structural clauses on u_hat (appendix A.1): only the component along w is changed, and w.u_hat > -1 / (largest slope of the activation)
                 wu = (w * u).sum(1)
                 wuh = (w * uhat).sum(1)
                 diff = uhat - u
                 par = diff - (diff * w).sum(1, keepdims=True) * w / np.maximum((w * w).sum(1, keepdims=True), 1e-300)
                 ptol = (1e-9 if x64 else 1e-4) * (1 + np.abs(u) + np.abs(diff))
-                _state["uhat_ok"] = bool(np.all(np.abs(par) <= ptol) and np.all(wuh[wu > (-30 if x64 else -12)] > -1))
+                _state["uhat_ok"] = bool(np.all(np.abs(par) <= ptol) and np.all(wuh[wu > (-30 if x64 else -12)] > -1 / max(1.0, ns or 1.0)))
                 a = (w * x).sum(1) + bias
                 act = np.tanh(a) if ns is None else np.where(a >= 0, a, ns * a)
                 return x + uhat * act[:, None]
@@ -319,6 +320,30 @@ def run_shard(shard):
             if len(rec.samples) < 4 and kind in ("RQS", "Planar", "TriangularAffine", "LeakyTanh") and moved.any():
                 i = int(np.where(moved)[0][0])
                 rec.samples.append(jsonable({"kind": kind, "args": args, "mode": mode, "x": xs[i], "transform": y[i], "reference": yr[i]}))
+            # ---- input representation: a NumPy array (and, for scalar bijections, a python float) holding the same numbers as
+            # the jax array gives the same result.  (Integer arrays are *not* part of this clause: bijection methods leave the
+            # dtype to JAX's promotion rules - only distributions cast to float - and python lists are rejected by design.)
+            if mode[0] != "init" or kind in ("Exp", "SoftPlus", "Tanh", "LeakyTanh", "Flip", "Permute"):
+                j0 = int(rng.integers(0, N))
+                xi, ci = xs[j0], (None if cs is None else cs[j0])
+                try:
+                    y0, ld0 = b.transform_and_log_det(jnp.asarray(xi), None if ci is None else jnp.asarray(ci))
+                    reps = {"numpy array": (np.array(xi), None if ci is None else np.array(ci))}
+                    if shape == () and x64:
+                        reps["python float"] = (float(xi), None if ci is None else np.array(ci))
+                    for rn, (xr, cr) in reps.items():
+                        rec.count("input_representation_checks")
+                        y1 = b.transform(xr, cr)
+                        y2, ld2 = b.transform_and_log_det(xr, cr)
+                        same = (np.array_equal(np.asarray(y1), np.asarray(y0), equal_nan=True) and np.array_equal(np.asarray(y2), np.asarray(y0), equal_nan=True)
+                                and np.array_equal(np.asarray(ld2), np.asarray(ld0), equal_nan=True) and y1.dtype == y0.dtype and ld2.dtype == ld0.dtype)
+                        if not same:
+                            rec.violation("value.input_representation", f"{kind}{str(jsonable(args))[:200]} [{mode}]: transform of the {rn} {np.asarray(xi).tolist()} gives "
+                                                                         f"{np.asarray(y1).tolist()} ({y1.dtype}) but of the same numbers as a jax array {np.asarray(y0).tolist()} ({y0.dtype})",
+                                          it, mode, {"x": xi, "representation": rn})
+                            break
+                except Exception as e:  # noqa: BLE001
+                    rec.violation(f"exception.{type(e).__name__}", f"{kind}{jsonable(args)} [{mode}]: NumPy / python-scalar inputs raised {type(e).__name__}: {str(e)[:200]}", it, mode, {})
             # ---- spline structural clauses
             if kind == "RQS":
                 u = unwrap(b)
